@@ -128,6 +128,13 @@ def run(ctx):
         for m in msgs:
             res.add_violation(dict(driver="refine", cfg=t, message=m, sig=dict(kind="refine")))
     s = agg["summary"]
+    # a solver copied mid-run (deepcopy / pickle) and continued: copy and original judged by the same oracle
+    from mc import copyrun
+    from mc.common import pmap as _pm
+    ctasks = copyrun.tasks(ctx.thorough)
+    for t, msgs in zip(ctasks, _pm(copyrun.case_c04, ctasks, chunksize=4)):
+        for mm in msgs:
+            res.add_violation(dict(driver="copy", task=t, message=mm, sig={}))
     res.cov = dict(
         states=agg["nodes"], transitions=agg["nodes"], traces_validated_against_impl=agg["runs"] + s.get("solve_twins", 0),
         evaluations=agg["trials"], distinct_nontrivial=s.get("nontrivial_runs", 0),
@@ -146,6 +153,9 @@ def run(ctx):
 
 
 def replay(rec):
+    if rec.get("driver") == "copy":
+        from mc import copyrun
+        return copyrun.case_c04(rec["task"])
     if rec.get("driver") == "history":
         return history_case(rec)
     if rec.get("driver") == "painter":
